@@ -75,7 +75,7 @@ fn $name() {
 // @harness c03_flush_entries_new_shared
 // @props C03 C16 C18 C17 C02 C04
 // @tier quick
-// @cost 100
+// @cost 12
 // @timeout 1500
 // @needs FC
 // @desc the whole body of flush_cache_entries (locks, the new-cluster registry and the backend shimmed; lazily created requests run by join_all) on two cached L2 slices: every dirty slice is written back whole, once, at its own host offset (block aligned) and its dirty flag is cleared; a clean slice is neither written nor changed; if the cluster the slices live in is registered as new and not yet zeroed it is zeroed exactly ONCE (whole cluster, cluster aligned) BEFORE any slice is written into it, its flag flips and it is unregistered; a cluster that is not new, or already handled, is never zeroed
@@ -88,7 +88,7 @@ flush_entries!(c03_flush_entries_new_shared, true, true, true, 1);
 // @harness c03_flush_entries_handled
 // @props C03 C16 C18 C17 C02 C04
 // @tier quick
-// @cost 100
+// @cost 11
 // @timeout 1500
 // @needs FC
 // @desc the whole body of flush_cache_entries (locks, the new-cluster registry and the backend shimmed; lazily created requests run by join_all) on two cached L2 slices: every dirty slice is written back whole, once, at its own host offset (block aligned) and its dirty flag is cleared; a clean slice is neither written nor changed; if the cluster the slices live in is registered as new and not yet zeroed it is zeroed exactly ONCE (whole cluster, cluster aligned) BEFORE any slice is written into it, its flag flips and it is unregistered; a cluster that is not new, or already handled, is never zeroed
@@ -101,7 +101,7 @@ flush_entries!(c03_flush_entries_handled, true, true, true, 2);
 // @harness c03_flush_entries_plain
 // @props C03 C16 C18 C17 C02 C04
 // @tier quick
-// @cost 100
+// @cost 10
 // @timeout 1500
 // @needs FC
 // @desc the whole body of flush_cache_entries (locks, the new-cluster registry and the backend shimmed; lazily created requests run by join_all) on two cached L2 slices: every dirty slice is written back whole, once, at its own host offset (block aligned) and its dirty flag is cleared; a clean slice is neither written nor changed; if the cluster the slices live in is registered as new and not yet zeroed it is zeroed exactly ONCE (whole cluster, cluster aligned) BEFORE any slice is written into it, its flag flips and it is unregistered; a cluster that is not new, or already handled, is never zeroed
@@ -114,7 +114,7 @@ flush_entries!(c03_flush_entries_plain, true, true, true, 0);
 // @harness c03_flush_entries_split
 // @props C03 C16 C18 C17 C02 C04
 // @tier quick
-// @cost 100
+// @cost 11
 // @timeout 1500
 // @needs FC
 // @desc the whole body of flush_cache_entries (locks, the new-cluster registry and the backend shimmed; lazily created requests run by join_all) on two cached L2 slices: every dirty slice is written back whole, once, at its own host offset (block aligned) and its dirty flag is cleared; a clean slice is neither written nor changed; if the cluster the slices live in is registered as new and not yet zeroed it is zeroed exactly ONCE (whole cluster, cluster aligned) BEFORE any slice is written into it, its flag flips and it is unregistered; a cluster that is not new, or already handled, is never zeroed
@@ -127,7 +127,7 @@ flush_entries!(c03_flush_entries_split, false, true, true, 1);
 // @harness c03_flush_entries_one_dirty
 // @props C03 C16 C18 C17 C02 C04
 // @tier quick
-// @cost 100
+// @cost 10
 // @timeout 1500
 // @needs FC
 // @desc the whole body of flush_cache_entries (locks, the new-cluster registry and the backend shimmed; lazily created requests run by join_all) on two cached L2 slices: every dirty slice is written back whole, once, at its own host offset (block aligned) and its dirty flag is cleared; a clean slice is neither written nor changed; if the cluster the slices live in is registered as new and not yet zeroed it is zeroed exactly ONCE (whole cluster, cluster aligned) BEFORE any slice is written into it, its flag flips and it is unregistered; a cluster that is not new, or already handled, is never zeroed
@@ -140,7 +140,7 @@ flush_entries!(c03_flush_entries_one_dirty, true, false, true, 1);
 // @harness c03_flush_entries_clean
 // @props C03 C16 C18 C17 C02 C04
 // @tier quick
-// @cost 100
+// @cost 5
 // @timeout 1500
 // @needs FC
 // @desc the whole body of flush_cache_entries (locks, the new-cluster registry and the backend shimmed; lazily created requests run by join_all) on two cached L2 slices: every dirty slice is written back whole, once, at its own host offset (block aligned) and its dirty flag is cleared; a clean slice is neither written nor changed; if the cluster the slices live in is registered as new and not yet zeroed it is zeroed exactly ONCE (whole cluster, cluster aligned) BEFORE any slice is written into it, its flag flips and it is unregistered; a cluster that is not new, or already handled, is never zeroed
@@ -153,7 +153,7 @@ flush_entries!(c03_flush_entries_clean, true, false, false, 1);
 // @harness c17_flush_entries_failure
 // @props C17 C18
 // @tier quick
-// @cost 60
+// @cost 8
 // @timeout 900
 // @needs FC
 // @desc flush_cache_entries (whole body) when the backend fails the slice writes: the error is returned and the slices that were being written back are STILL marked dirty, so that repeating the flush once the backend works again writes them -- their content must not silently stay in memory only
